@@ -2176,7 +2176,7 @@ func aliasReply(steps []aliasStep) string {
 func init() {
 	run.Register(&run.Stream{
 		Name:   "alias",
-		Rule:   "nontrivial = the call succeeded (or failed without panic) and either stored a document/index built from a non-empty container argument (catalog dump changed) or handed back at least one non-empty container (decoded document, id document/binary, distinct array, upserted-id map, raw bytes)",
+		Rule:   "nontrivial = the call succeeded (or failed without panic) and either stored a document/index built from a non-empty container argument (catalog dump changed) or handed back at least one non-empty container (decoded document, id document/binary, distinct array, upserted-id map, raw bytes); every third case is followed by a bytes probe (alias_bytes.go): Raw/DecodeBytes/Decode of one single result, cursor positions, Distinct over arrays of arrays and binaries, index and collection listings, change stream events and resume tokens are overwritten by the caller and read again",
 		Corpus: func() []run.Case { return []run.Case{aliasSharingProbe()} },
 		Gen: func(r *gen.R, idx int) []run.Case {
 			seed := r.U64()
@@ -2192,12 +2192,28 @@ func init() {
 				// no model side: Req stays empty so that the model process is not asked
 				cases = append(cases, run.Case{Req: "", Impl: impl, Nontrivial: st.nontriv, Tags: st.tags, Viols: viols})
 			}
+			// second family: results that hand out bytes / nested containers more than once (alias_bytes.go)
+			if idx%3 == 0 {
+				cases = append(cases, aliasBytesCase(seed))
+			}
 			return cases
 		},
 		Replay: func(req string) string {
 			q, err := parseReq(req)
 			if err != nil || q.str("op") != "alias" {
 				return ""
+			}
+			if b := q.str("bytes"); b != "" {
+				seed, err := strconv.ParseUint(b, 16, 64)
+				if err != nil {
+					return ""
+				}
+				c := aliasBytesCase(seed)
+				out := c.Impl
+				for _, v := range c.Viols {
+					out += "\nVIOLATION " + v.Witness + ": " + v.Detail
+				}
+				return out
 			}
 			seed, err := strconv.ParseUint(q.str("case"), 16, 64)
 			if err != nil {
